@@ -2441,7 +2441,15 @@ func (f *fragment) snapshot() error {
 	f.totalOpN += int64(f.opN)
 	f.totalOps += int64(f.ops)
 	f.snapshotsTaken++
+	// A write operation that is under way has the data file open (see
+	// reopen) and goes on logging to it after this snapshot. Over the open
+	// file limit openStorage closes the new file again, so give the operation
+	// its file back; the operation closes it when it is done.
+	wasOpen := f.file != nil
 	_, err := unprotectedWriteToFragment(f, f.storage)
+	if err == nil && wasOpen && f.file == nil {
+		_, err = f.reopen()
+	}
 	return err
 }
 
